@@ -101,6 +101,14 @@ def K4r(durations=(0, 1, 2)) -> Iterator[Spec]:
     return (s for s in family(K4_SHAPES, MS_FX2R, durations) if is_flexible(s))
 
 
+K5_SHAPES = [(3, 1, 1), (1, 3, 1), (2, 2, 1), (2, 1, 2), (3, 2), (1, 1, 1, 2)]
+
+
+def K5(durations=(0, 1, 2), machine_sets=MS_FX2) -> Iterator[Spec]:
+    """Five operations (6 shapes x 9**5 = 354294 instances): always used sliced."""
+    return family(K5_SHAPES, machine_sets, durations)
+
+
 def K3_pos() -> Iterator[Spec]:
     return K3(durations=(1, 2))
 
